@@ -33,6 +33,12 @@ type Obl struct {
 	Assumed bool // known finding etc.
 }
 
+type defMemoT struct {
+	name string
+	at   int
+	line string
+}
+
 type WriteRec struct {
 	Key      string
 	Ref      string // "" = type-wide
@@ -67,6 +73,7 @@ type Enc struct {
 	closureBinds map[string][]Val
 	allocHook func(fr *Frame, st *State, reach string, x ssa.Instruction, ln string, et types.Type)
 	opt *EncOpts
+	defMemo map[string]defMemoT
 	paramVals []Val
 	topTags map[string]bool
 	assumed map[string]int
@@ -121,8 +128,17 @@ func (e *Enc) define(prefix string, s Sort, term string) string {
 	if reSimple.MatchString(term) || strings.HasPrefix(term, "(_ bv") || e.noDefine > 0 {
 		return term
 	}
+	// hash-consing: an identical term defined earlier (and still present in the script) is reused
+	if e.defMemo == nil {
+		e.defMemo = map[string]defMemoT{}
+	}
+	if m, ok := e.defMemo[term]; ok && m.at < len(e.body) && e.body[m.at] == m.line {
+		return m.name
+	}
 	n := e.sym(prefix)
-	e.body = append(e.body, fmt.Sprintf("(define-fun %s () %s %s)", n, s, term))
+	line := fmt.Sprintf("(define-fun %s () %s %s)", n, s, term)
+	e.defMemo[term] = defMemoT{n, len(e.body), line}
+	e.body = append(e.body, line)
 	if e.defs == nil {
 		e.defs = map[string]string{}
 	}
